@@ -227,3 +227,32 @@ PROPS["C20"] = {'assumptions': ['crypto/rand draws do not repeat and cannot be g
              'frame / ClassAd decoding of a greeting is a parameter of the model (a reverse connection is presented as closed | garbage | silent | hello cmd '
              'claim); the engine ties the classes to real bytes',
              'Go scheduler, network and timers are an explicit event list (the schedule) the theorems quantify over']}
+
+PROPS["C19"] = {'assumptions': ['net.Conn.Close makes a pending Read/Write return with an error and later ones fail (runtime contract, DESIGN §3)',
+                 'context.AfterFunc runs f in its own goroutine when the context fires; stop() reports false exactly then'],
+ 'engines': ['stall'],
+ 'lean': 'CedarProps.C19',
+ 'level_note': "Partial by nature: 'promptly' is wall-clock time; the theorems prove return WITHOUT FURTHER PEER ACTION (Ret.blocked is the only non-returning "
+               'outcome), the engine measures time-to-return against a generous bound (1.5 s) as a liveness detector only. Handshakes are modelled as '
+               'sequences of readWithContext/writeWithContext calls whose errors abort or are swallowed (retry loops); that every swallowing site is followed '
+               'by an aborting step or an unconditional error return is read off the code and observed by the engine for every k, not proved. For handshakes '
+               "the property promises 'an error'; the engine records whether it Is the context's error. Kerberos and SciTokens need a KDC / issuer and are not "
+               'run; two cedar endpoints cannot complete SSL with each other, so SSL runs as the failing first method of a fallback and alone (ends in its own '
+               'error). After the entry-guard fix the connection is closed at all three cancellation positions; in the stop() window the close is asynchronous '
+               '(watcher goroutine).',
+ 'level_text': 'unblocks (blocked => the context has not fired, any operation, any environment), cancelled_before, stall_cancel_during / stall_cancel_before / '
+               "cancel_in_stop_window (every k, every prefix, both error kinds), plain_error_is_ctx (all-abort operations return exactly the context's error "
+               'once it has fired), closed_on_cancel (Close has run or the watcher was started, all three positions), guard_without_close_leaves_open (record '
+               'of the defect: before the fix the entry guard returned with the connection open), never_cancellable_adds_nothing / unfired_adds_nothing '
+               '(refinement to the bare I/O), stall_blocks_without_cancel, all_io_wrapped + ctx_threaded (fact tables regenerated from stream/ security/ '
+               'message/): kernel-checked over the event model. Tied to the code by the stall engine: real handshakes (no-auth, CLAIMTOBE, FS, TOKEN, SSL as '
+               'failing first method and alone, resumption, negotiation failure; both roles) and plain exchanges (every send/receive API, secrets, files, '
+               'typed messages; clear and AES-GCM) over a connection whose k-th read or write stalls / fails / fires the cancel, for every k, schedules guard '
+               '/ during / deadline / stop-window / never / unfired / after / already-fired.',
+ 'oracle_engine': {'stall': 'cancel'},
+ 'technique': 'Lean 4 theorems over an event model of readWithContext/writeWithContext (guard -> fast path | AfterFunc watch -> io -> stop) with an '
+              'adversarial per-step environment (peer completes / fails / stalls; cancellation before the guard or while the request is outstanding), '
+              'step-level case analysis lifted to operations by induction; fact tables (connection I/O sites, context provenance) decided by `decide` against '
+              'declared lists; + correspondence on real streams and handshakes through a stalling net.Conn wrapper and a scripted context',
+ 'trusted': ['Go runtime contracts of net.Conn.Close and context.AfterFunc/stop (parameters of the model)',
+             'facts_io.go is syntactic (identifier resolution only); over-approximate: a new connection use or foreign context breaks the inclusion theorem']}
